@@ -262,6 +262,16 @@ XalanOutputStream::setOutputEncoding(const XalanDOMString&  theEncoding)
     // Flush, just in case.  This should probably be an error...
     flushBuffer();
 
+    // There is nothing to do if this is the encoding already, and the
+    // prolog (a byte order mark) must not be written a second time.  That
+    // happens when the XML formatter is replaced by the HTML formatter,
+    // because the document element turns out to be "html".
+    if (m_encoding.empty() == false &&
+        equalsIgnoreCaseASCII(m_encoding, theEncoding) == true)
+    {
+        return;
+    }
+
     XalanTranscodingServices::destroyTranscoder(m_transcoder);
 
     m_transcoder = 0;
